@@ -60,11 +60,35 @@ for d in sorted(glob.glob(f'{V}/seeded/C*/')):
     else:
         seedrows.append(f"| {name} | run failed (exit {rc}) |")
 tab7 = "### 0.7 Seeded changes (`/verif/seeded/<name>/`)\n\n" \
- f"{len(seedrows)} changes written by independent sub-agents that saw only the property text\nand a scratch worktree (two rounds); each was confirmed here (demo passes without, fails\nwith the change; the 958 tests pass with it) by `seeded/confirm_seed.sh`.\n`seeded/run_seed_par.sh <seed> <property>` applies one in a scratch worktree and runs the\ncheck there; `seeded/run_all_seeds.sh` runs all of them and writes `seeded/results.tsv`.\n" \
+ f"{len(seedrows)} changes written by independent sub-agents that saw only the property text\nand a scratch worktree (three rounds: 19, 14 and 8 changes; the third aimed at the code brought under contract last); each was confirmed here (demo passes without, fails\nwith the change; the 958 tests pass with it) by `seeded/confirm_seed.sh`.\n`seeded/run_seed_par.sh <seed> <property>` applies one in a scratch worktree and runs the\ncheck there; `seeded/run_all_seeds.sh` runs all of them and writes `seeded/results.tsv`.\n" \
  f"Last run: {caught} caught, {missed} missed.\n\n| seed | caught by (first failing obligation) |\n|---|---|\n" + "\n".join(seedrows) + "\n"
 head=open(f'{V}/design_sec0_head.md').read().replace('@@TABLES@@', tab3)
 tail=open(f'{V}/design_sec0_tail.md').read()
-sec0 = head.rstrip('\n') + "\n\n" + tail.rstrip('\n') + "\n\n" + tab7 + "\n"
+layout = """### 0.8 Layout as built, and where it deviates from sections 1-9
+
+```
+/verif/DESIGN.md MANIFEST.json KNOWN_FINDINGS.txt expected_obligations.json
+/verif/govc/cmd/govc/*.go     the verifier (one package: term, value, state, exec, calls, world, spec, verify, solve, check, replay, main)
+/verif/bin/govc               built by setup_cmd (git-ignored)
+/verif/evidence/Cxx.json      rewritten by every run
+/verif/out/                   replay files and logs (scratch, git-ignored)
+/verif/seeded/<name>/         patch.diff, demo test, meta.json, notes.md; confirm_seed.sh, run_seed.sh, run_seed_par.sh, run_all_seeds.sh, results.tsv
+/verif/findings/              demonstration tests for two repaired defects
+/verif/gen_manifest.py gen_design_sec0.py design_sec0_head.md design_sec0_tail.md run_all_quick.sh
+/repo/<pkg>/zz_contracts_verif.go, zz_spec_verif.go   (//go:build verif; contracts are comment-only, spec functions are Go)
+```
+
+Deviations from the plan: no separate `spec/`, `selftest/` or `replay/` directories
+(spec functions live next to the code behind the build tag, the must-fail corpus is
+`seeded/`, replay tests are generated); no `zz_hooks_verif.go` (no run-time hook was
+needed); a contract that cannot be attached is reported as a violation
+(`no-failing-input-found`), not as a third exit code; no bounded stand-ins were built
+(nothing is labelled bounded); no Houdini inference; floats stayed uninterpreted; C12
+became not applicable; the quick suite takes about 26 minutes, not 10-12 (18 checks,
+2 to 6 minutes for the large ones), a full `bin/govc baseline` (= every thorough check)
+about 25 minutes.
+"""
+sec0 = head.rstrip('\n') + "\n\n" + tail.rstrip('\n') + "\n\n" + tab7 + "\n" + layout + "\n"
 s=open(f'{V}/DESIGN.md').read()
 a=s.index("## 0. As built"); b=s.index("\nContents\n")
 open(f'{V}/DESIGN.md','w').write(s[:a]+sec0+s[b:])
